@@ -366,6 +366,86 @@ func r07b(c *an.Ctx) {
 				}
 			}
 		}
+		// the stored counter is taken as it is: what is parsed is what was read - no default is substituted for an
+		// empty or damaged file (an interrupted rewrite leaves one) - and a parse failure is returned as an error
+		for _, pc := range an.Calls(f, func(n string, _ ssa.CallInstruction) bool {
+			return n == "strconv.ParseUint" || n == "strconv.ParseInt" || n == "strconv.Atoi"
+		}) {
+			call, isCall := pc.(*ssa.Call)
+			if !isCall {
+				continue
+			}
+			okSrc, fromRead := true, false
+			seenV := map[ssa.Value]bool{}
+			var walk func(v ssa.Value)
+			walk = func(v ssa.Value) {
+				if v == nil || seenV[v] {
+					return
+				}
+				seenV[v] = true
+				switch x := v.(type) {
+				case *ssa.Phi:
+					for _, e := range x.Edges {
+						walk(e)
+					}
+				case *ssa.Const:
+					okSrc = false // a constant can reach the parser: a default stands in for the stored value
+				case *ssa.Convert:
+					walk(x.X)
+				case *ssa.ChangeType:
+					walk(x.X)
+				case *ssa.Slice:
+					walk(x.X)
+				case *ssa.Extract:
+					for _, r := range reads {
+						if x.Tuple == r.(ssa.Value) && x.Index == 0 {
+							fromRead = true
+						}
+					}
+				case *ssa.Call:
+					n := an.CalleeName(&x.Call)
+					if strings.HasPrefix(n, "strings.Trim") || n == "bytes.TrimSpace" || strings.HasPrefix(n, "bytes.Trim") {
+						walk(x.Call.Args[0])
+					}
+				case *ssa.UnOp:
+					if al, isAl := x.X.(*ssa.Alloc); isAl && al.Referrers() != nil {
+						for _, r := range *al.Referrers() {
+							if st, isSt := r.(*ssa.Store); isSt && st.Addr == ssa.Value(al) {
+								walk(st.Val)
+							}
+						}
+					}
+				}
+			}
+			walk(call.Call.Args[0])
+			errOK := false
+			if ev := errResult(call); ev != nil {
+				for _, b := range f.Blocks {
+					x, nilIdx, isNilTest := an.NilCondEdge(b)
+					if !isNilTest || !an.DerivesFrom(x, ev) || !an.Dominates(call, b.Instrs[len(b.Instrs)-1]) {
+						continue
+					}
+					fl := an.FlowFromEdge(b, 1-nilIdx, nil, ev, x)
+					rets := fl.ReachedReturns()
+					good := len(rets) > 0
+					for _, ret := range rets {
+						if fl.Nilness(an.RetVal(ret, len(ret.Results)-1)) != 1 {
+							good = false
+						}
+					}
+					for _, w := range writes {
+						if fl.Reaches(w) {
+							good = false
+						}
+					}
+					if good {
+						errOK = true
+					}
+				}
+			}
+			c.Ob(c.RelName(f)+"|stored-counter-taken-as-is", call.Pos(), okSrc && fromRead && errOK,
+				"the number parsed must be exactly what was read from the counter (from-read=%v, no constant default=%v) and a parse failure must be returned without rewriting the counter (%v): treating an empty or damaged counter file as 0 makes a restarted core hand out run numbers again", fromRead, okSrc, errOK)
+		}
 		c.Ob(c.RelName(f)+"|read-modify-write-atomic", f.Pos(), ok,
 			"this backend reads the run counter, increments it and writes it back with no lock and no compare-and-set: two environments starting at the same time read the same value and get the same run number")
 	}
